@@ -62,6 +62,8 @@ type loopInfo struct {
 type Exec struct {
 	// latch values of the header phis while an inv-step / variant check is evaluated (see backEdge)
 	stepVals map[*ssa.Phi]Term
+	// values of the never-written package-level variables at function entry (see assumeGlobalFacts)
+	globalEntryVal map[string]string
 	vc     *VC
 	p      *Program
 	fn     *ssa.Function
